@@ -343,7 +343,7 @@ func c03Alphabet() []c03Rec {
 	}
 	// "a b c ...": a blank at every odd offset, so that whatever fixed offset a decoder might cut the timestamp at
 	// (it is the first blank that ends it) meets a blank inside the message
-	msgs := []string{"", "a", "a b", " lead", "x\ny", "\xff\xfe", "t\n", "a b c d e f g h i j k l m n o p q r s t", "u\r\n"}
+	msgs := []string{"", "a", "a b", " lead", "x\ny", "\xff\xfe", "t\n", "a b c d e f g h i j k l m n o p q r s t", "u\r\n", "\xef\xbb\xbfbom"}
 	var out []c03Rec
 	for _, m := range msgs {
 		for _, f := range forms {
@@ -510,7 +510,7 @@ func c03Run(r *vkit.Run) {
 		}
 	}
 	r.Count("decoder_runs", cases)
-	r.Note("bounds", fmt.Sprintf("all record sequences of length <=%d over %d records (3 stream types x 5 timestamp spellings x 9 messages; length 3 varies the stream type of the first record only); per sequence: every truncation offset, every read-error offset, every stall offset, all single cuts, all double cuts (length<=2), bytewise, framewise, EOF-with-data, every position of systemerr/bad-timestamp/no-space/oversized/empty frame; lines of 256 KiB -1/0/+1, 300000 and 1 MiB + 5 bytes whole and broken at 9 offsets", maxLen, len(alpha)))
+	r.Note("bounds", fmt.Sprintf("all record sequences of length <=%d over %d records (3 stream types x 5 timestamp spellings x 10 messages; length 3 varies the stream type of the first record only); per sequence: every truncation offset, every read-error offset, every stall offset, all single cuts, all double cuts (length<=2), bytewise, framewise, EOF-with-data, every position of systemerr/bad-timestamp/no-space/oversized/empty frame; lines of 256 KiB -1/0/+1, 300000 and 1 MiB + 5 bytes whole and broken at 9 offsets", maxLen, len(alpha)))
 }
 
 func c03Replay(r *vkit.Run, v vkit.Violation) *vkit.Violation {
